@@ -159,7 +159,7 @@ func c14Refusals(p *Program, r *Report) {
 			bad := false
 			reach := reachableFromEdge(vf, ce.holds, nil)
 			for _, s := range errReturnSites(vf) {
-				if isNilConst(s.val) && reach[s.ret.Block()] {
+				if isNilConst(s.val) && s.reachedIn(reach) {
 					bad = true
 				}
 			}
@@ -189,7 +189,7 @@ func c14Refusals(p *Program, r *Report) {
 		reach := reachableFromEdge(bf, e, nil)
 		bad := false
 		for _, s := range errReturnSites(bf) {
-			if isNilConst(s.val) && (reach[s.ret.Block()] && s.pred == nil || s.pred != nil && reach[s.pred]) {
+			if isNilConst(s.val) && (s.reachedIn(reach) && s.pred == nil || s.pred != nil && reach[s.pred]) {
 				bad = true
 			}
 		}
@@ -202,17 +202,23 @@ func c14Refusals(p *Program, r *Report) {
 
 func c14Eval(p *Program, r *Report) {
 	f := p.Func("(*auth.BucketPolicy).isAllowed")
-	var match, allow, deny []condEdge
-	for _, ce := range condEdgesOf(f) {
-		isMatch := false
-		for _, rt := range Origins(ce.cond, nil) {
-			if rt.Kind == "call" && strings.HasSuffix(rt.Desc, ".findMatch") {
-				isMatch = true
+	// the three matchers (the helper that combines them, whatever it is called, is inlined)
+	matchers := []string{"(auth.Principals).Contains", "(auth.Actions).FindMatch", "(auth.Resources).FindMatch"}
+	matchEdges := map[string][]edge{}
+	for _, want := range matchers {
+		for _, c := range callsTo(f, want) {
+			if c.Value() == nil {
+				continue
+			}
+			for _, cb := range condBranches(c.Value()) {
+				if cb.whenTrue {
+					matchEdges[want] = append(matchEdges[want], cb.e)
+				}
 			}
 		}
-		if isMatch {
-			match = append(match, ce)
-		}
+	}
+	var allow, deny []condEdge
+	for _, ce := range condEdgesOf(f) {
 		if ce.atoms["field:Effect"] && ce.atoms[`const:"Allow"`] && ce.isEqNeq {
 			allow = append(allow, ce)
 		}
@@ -221,15 +227,17 @@ func c14Eval(p *Program, r *Report) {
 		}
 	}
 	pos := p.Pos(f.Pos())
-	if len(match) == 0 || len(allow) == 0 || len(deny) == 0 {
-		r.Viol("R-C14-3", fnName(f)+"/shape", pos, "isAllowed lacks a findMatch test, an Effect==Allow case or an Effect==Deny case")
+	missing := ""
+	for _, want := range matchers {
+		if len(matchEdges[want]) == 0 {
+			missing = want
+		}
+	}
+	if missing != "" || len(allow) == 0 || len(deny) == 0 {
+		r.Viol("R-C14-3", fnName(f)+"/shape", pos, "isAllowed lacks a test of "+missing+", an Effect==Allow case or an Effect==Deny case")
 		return
 	}
-	// (a) the constant true reaches the result only through match ∧ allow edges
-	var cutM, cutA []edge
-	for _, m := range match {
-		cutM = append(cutM, m.holds)
-	}
+	var cutA []edge
 	for _, a := range allow {
 		cutA = append(cutA, a.holds)
 	}
@@ -240,14 +248,24 @@ func c14Eval(p *Program, r *Report) {
 			sites = append(sites, ret.Block())
 		}
 	}
+	// (a) the constant true reaches the result only through allow ∧ every matcher's true edge
 	okA := len(sites) > 0
 	for _, s := range sites {
-		if reachable(f, nil, cutM)[s] || reachable(f, nil, cutA)[s] {
+		if reachable(f, nil, cutA)[s] {
 			okA = false
 		}
 	}
-	r.Check(okA, "R-C14-3", fnName(f)+"/true-only-on-allow-match", pos, "result becomes true only on a matching Allow statement", "isAllowed can yield true without a statement that both matches and has Effect Allow")
-	// (b) deny edge reaches only `return false`
+	r.Check(okA, "R-C14-3", fnName(f)+"/true-only-on-allow-match", pos, "result becomes true only on an Allow statement", "isAllowed can yield true without a statement that has Effect Allow")
+	for _, want := range matchers {
+		ok := len(sites) > 0
+		for _, s := range sites {
+			if reachable(f, nil, matchEdges[want])[s] {
+				ok = false
+			}
+		}
+		r.Check(ok, "R-C14-3", fnName(f)+"/match-requires:"+want, pos, "required for a statement to apply", "a statement can make the result true without "+want+" being true (principal, action and resource must all match)")
+	}
+	// (b) deny edge reaches only `return false`, and sits under every matcher's true edge
 	for i, d := range deny {
 		reach := reachableFromEdge(f, d.holds, nil)
 		ok := true
@@ -259,41 +277,13 @@ func c14Eval(p *Program, r *Report) {
 				ok = false
 			}
 		}
-		// the deny test itself must sit under the match edge
-		under := !reachable(f, nil, cutM)[d.ifi.Block()]
-		r.Check(ok && under, "R-C14-3", fnName(f)+"/deny-overrides#"+itoa(i+1), p.Pos(d.pos()), "a matching Deny returns false at once", "a matching Deny statement does not force the result false (deny no longer overrides allow)")
-	}
-	// findMatch: conjunction of the three matchers
-	fm := p.Func("(*auth.BucketPolicyItem).findMatch")
-	for _, want := range []string{"(auth.Principals).Contains", "(auth.Actions).FindMatch", "(auth.Resources).FindMatch"} {
-		cs := callsTo(fm, want)
-		if len(cs) == 0 {
-			r.Viol("R-C14-3", fnName(fm)+"/"+want, p.Pos(fm.Pos()), "findMatch no longer consults "+want)
-			continue
-		}
-		// returning true requires this call's true edge: cut it, no `true` result reachable
-		var cut []edge
-		for _, c := range cs {
-			for _, cb := range condBranches(c.Value()) {
-				if cb.whenTrue {
-					cut = append(cut, cb.e)
-				}
+		under := true
+		for _, want := range matchers {
+			if reachable(f, nil, matchEdges[want])[d.ifi.Block()] {
+				under = false
 			}
 		}
-		bad := false
-		for _, ret := range returnsOf(fm) {
-			for _, s := range append(trueSites(ret.Results[0]), func() []*ssa.BasicBlock {
-				if b, ok := constBool(ret.Results[0]); ok && b {
-					return []*ssa.BasicBlock{ret.Block()}
-				}
-				return nil
-			}()...) {
-				if reachable(fm, nil, cut)[s] {
-					bad = true
-				}
-			}
-		}
-		r.Check(len(cut) > 0 && !bad, "R-C14-3", fnName(fm)+"/"+want, p.Pos(cs[0].Pos()), "required for a match", "findMatch can report a match without "+want+" being true")
+		r.Check(ok && under, "R-C14-3", fnName(f)+"/deny-overrides#"+itoa(i+1), p.Pos(d.pos()), "a matching Deny returns false at once", "a matching Deny statement does not force the result false (deny no longer overrides allow), or a Deny applies without the statement matching")
 	}
 	// VerifyBucketPolicy: nil only when isAllowed is true
 	vb := p.Func(fnVerifyBucketPol)
